@@ -348,11 +348,18 @@ Proof. unfold f1. apply Nat.eqb_neq. lia. Qed.
 
 Definition final_shape (r : option errno) (s : fs) : Prop :=
   match r with
-  | None => exists im, Shape s [LINK; REN] true [mkFile data None perm im] (fds s0)
+  | None => (exists im, Shape s [LINK; REN] true [mkFile data None perm im] (fds s0)) /\ too_long b = false
   | Some _ => True
   end.
 
 Ltac tp := repeat (constructor; try apply tp_link; try apply tp_unlink; try apply tp_rename).
+
+(* Rstep from the shapes of the two states *)
+Ltac rs H H' :=
+  eapply (rstep_shapes _ _ _ _ _ _ _ _ _ _ H H');
+  [ try tp; auto | try tp; auto
+  | let Hx := fresh in intros Hx;
+    first [ discriminate Hx | congruence | (split; [reflexivity | reflexivity]) | (split; [reflexivity | assumption]) ] ].
 
 (* fsyncAndClose of the temporary file after a successful write *)
 Lemma fac_file s pm :
@@ -369,8 +376,8 @@ Proof.
     { unfold step. cbv zeta. rewrite (sh_fds _ _ _ _ _ H), fd_get_bind. reflexivity. }
     pose proof (shape_fupd _ _ _ _ _ (fun f => mkFile (fcontent f) None (f_perm f) (f_imm f)) H) as H'.
     cbn [fcontent f_vol f_perm f_imm app] in H'.
-    apply mchain_call; rewrite E; cbn [fst snd]; auto.
-    + eapply rstep_shapes; eauto; try tp. discriminate.
+    apply mchain_call; try rewrite E; cbn [fst snd]; auto.
+    + rs H H'.
     + eapply good_shape; eauto. apply safe_no_ren; auto; tp.
   - intros r s1 [-> H1].
     assert (E : step (SClose f1) s1 = (set_fds s1 ((f0, HDir d) :: fds s0), None)).
@@ -379,8 +386,8 @@ Proof.
     assert (G1 : Good s1) by (eapply good_shape; eauto; apply safe_no_ren; auto; tp).
     eapply mchain_bind with (Q := fun r s' => r = None /\
       Shape s' [LINK] false [mkFile data None pm false] ((f0, HDir d) :: fds s0)).
-    + apply mchain_call; rewrite E; cbn [fst snd]; auto.
-      * eapply rstep_shapes; eauto; try tp. discriminate.
+    + apply mchain_call; try rewrite E; cbn [fst snd]; auto.
+      * rs H1 H1'.
       * eapply good_shape; eauto. apply safe_no_ren; auto; tp.
     + intros r s2 [-> H2]. apply mchain_ret; auto.
       eapply good_shape; eauto. apply safe_no_ren; auto; tp.
@@ -401,16 +408,16 @@ Proof.
     pose proof (shape_set_fds _ _ _ _ _ (fds s0) H) as H'.
     assert (G1 : Good (set_fds s (fds s0))) by (eapply good_shape; eauto; apply safe_no_ren; auto).
     eapply mchain_bind with (Q := fun r s' => Good s').
-    + apply mchain_call; rewrite E; cbn [fst snd]; auto.
-      eapply rstep_shapes; eauto. congruence.
+    + apply mchain_call; try rewrite E; cbn [fst snd]; auto.
+      rs H H'.
     + intros r s2 G2. apply mchain_ret; cbn; auto.
 Qed.
 
 Lemma fac_parent_ok s im :
-  Shape s [LINK; REN] false [mkFile data None perm im] ((f0, HDir d) :: fds s0) ->
+  Shape s [LINK; REN] false [mkFile data None perm im] ((f0, HDir d) :: fds s0) -> too_long b = false ->
   mchain (fsync_and_close f0 None) s Good Rstep final_shape.
 Proof.
-  intros H. unfold fsync_and_close.
+  intros H Hlong. unfold fsync_and_close.
   assert (S0 : SafeP [LINK; REN] false [mkFile data None perm im]).
   { repeat split; try tp; try discriminate. intros _. exists perm, im. reflexivity. }
   assert (S1 : SafeP [LINK; REN] true [mkFile data None perm im]).
@@ -421,8 +428,8 @@ Proof.
   - assert (E : step (SFsync f0) s = (set_dirs s (dupd (dirs s) d (mkDir (view (dirs s d)) [])), None)).
     { unfold step. cbv zeta. rewrite (sh_fds _ _ _ _ _ H), fd_get_bind. reflexivity. }
     pose proof (shape_sync _ _ _ _ H) as H'.
-    apply mchain_call; rewrite E; cbn [fst snd]; auto.
-    + eapply rstep_shapes; eauto; try tp.
+    apply mchain_call; try rewrite E; cbn [fst snd]; auto.
+    + rs H H'.
     + eapply good_shape; eauto.
   - intros r s1 [-> H1].
     assert (E : step (SClose f0) s1 = (set_fds s1 (fds s0), None)).
@@ -431,12 +438,12 @@ Proof.
     assert (G1 : Good s1) by (eapply good_shape; eauto).
     eapply mchain_bind with (Q := fun r s' => r = None /\
       Shape s' [LINK; REN] true [mkFile data None perm im] (fds s0)).
-    + apply mchain_call; rewrite E; cbn [fst snd]; auto.
-      * eapply rstep_shapes; eauto; try tp.
+    + apply mchain_call; try rewrite E; cbn [fst snd]; auto.
+      * rs H1 H1'.
       * eapply good_shape; eauto.
     + intros r s2 [-> H2]. apply mchain_ret.
       * eapply good_shape; eauto.
-      * cbn. exists im. exact H2.
+      * cbn. split; auto. exists im. exact H2.
 Qed.
 
 (* os.Remove of the temporary file: whatever it does, the shape only gains unlinks of tmp *)
@@ -456,10 +463,10 @@ Proof.
       destruct (too_long t); [intros [= -> ->]; auto|].
       destruct (eget (dview (dirs s) d) t) as [[j|]|]; try (intros [= -> ->]; auto; fail).
       destruct (file_imm s j); intros [= -> ->]; auto. }
-    apply mchain_call; rewrite Es; cbn [fst snd]; auto.
+    apply mchain_call; try rewrite Es; cbn [fst snd]; auto.
     + destruct Hs' as [->| ->]; [apply rstep_refl|].
-      eapply rstep_shapes; eauto. apply shape_push; eauto.
-      apply Forall_app; split; auto; tp. congruence.
+      pose proof (shape_push _ _ _ _ (OUnlink t) H) as Hp.
+      eapply (rstep_shapes _ _ _ _ _ _ _ _ _ _ H Hp); auto; [apply Forall_app; split; auto; tp | congruence].
     + destruct Hs' as [->| ->]; auto.
       eapply good_shape. apply shape_push; eauto. apply safe_no_ren; auto.
       apply Forall_app; split; auto; tp.
@@ -480,10 +487,10 @@ Proof.
         destruct (too_long t); [intros [= -> ->]; auto|].
         destruct (eget (dview (dirs s1) d) t) as [[j|]|]; try (intros [= -> ->]; auto; fail).
         destruct (dview (dirs s1) (d ++ [t])); intros [= -> ->]; auto. }
-      apply mchain_call; rewrite Es; cbn [fst snd]; auto.
+      apply mchain_call; try rewrite Es; cbn [fst snd]; auto.
       * destruct Hs' as [->| ->]; [apply rstep_refl|].
-        eapply rstep_shapes; eauto. apply shape_push; eauto.
-        apply Forall_app; split; auto; tp. congruence.
+        pose proof (shape_push _ _ _ _ (OUnlink t) H1) as Hp.
+        eapply (rstep_shapes _ _ _ _ _ _ _ _ _ _ H1 Hp); auto; [apply Forall_app; split; auto; tp | congruence].
       * destruct Hs' as [->| ->]; auto.
         eapply good_shape. apply shape_push; eauto. apply safe_no_ren; auto.
         apply Forall_app; split; auto; tp.
@@ -523,16 +530,16 @@ Proof.
       assert (Hs' : (s' = s /\ r <> None) \/ (s' = set_dirs s (dpush (dirs s) d REN) /\ r = None)).
       { revert E. destruct (walk_parent (dirs s) (d ++ [t])); [intros [= -> ->]; left; split; auto; discriminate|].
         destruct (too_long t); [intros [= -> ->]; left; split; auto; discriminate|].
-        rewrite (shape_view _ _ _ _ _ H). cbn [apply_ops fold_left apply_op]. rewrite eget_eset_same.
+        rewrite (shape_view _ _ _ _ _ H). unfold LINK. cbn [apply_ops fold_left apply_op]. rewrite eget_eset_same.
         destruct (too_long b); [intros [= -> ->]; left; split; auto; discriminate|].
         destruct (file_imm s i); [intros [= -> ->]; left; split; auto; discriminate|].
         destruct (eget (eset (dview (dirs s0) d) t (EFile i)) b) as [[j|]|].
         - destruct (file_imm s j); intros [= -> ->]; [left; split; auto; discriminate|right; auto].
         - intros [= -> ->]; left; split; auto; discriminate.
         - intros [= -> ->]; right; auto. }
-      apply mchain_call; rewrite Es; cbn [fst snd]; auto.
+      apply mchain_call; try rewrite Es; cbn [fst snd]; auto.
       * destruct Hs' as [[-> _]|[-> _]]; [apply rstep_refl|].
-        eapply rstep_shapes; eauto. apply (shape_push _ _ _ _ REN H). tp. tp. discriminate.
+        pose proof (shape_push _ _ _ _ REN H) as Hp. rs H Hp.
       * destruct Hs' as [[-> _]|[-> _]]; auto.
         eapply good_shape. apply (shape_push _ _ _ _ REN H).
         repeat split; try tp; try discriminate. intros _. exists perm, im. reflexivity.
@@ -544,16 +551,16 @@ Proof.
       assert (Hs' : (s' = s /\ r <> None) \/ (s' = set_dirs s (dpush (dirs s) d REN) /\ r = None)).
       { revert E. destruct (walk_parent (dirs s) (d ++ [t])); [intros [= -> ->]; left; split; auto; discriminate|].
         destruct (too_long t); [intros [= -> ->]; left; split; auto; discriminate|].
-        rewrite (shape_view _ _ _ _ _ H). cbn [apply_ops fold_left apply_op]. rewrite eget_eset_same.
+        rewrite (shape_view _ _ _ _ _ H). unfold LINK. cbn [apply_ops fold_left apply_op]. rewrite eget_eset_same.
         destruct (too_long b); [intros [= -> ->]; left; split; auto; discriminate|].
         destruct (file_imm s i); [intros [= -> ->]; left; split; auto; discriminate|].
         destruct (eget (eset (dview (dirs s0) d) t (EFile i)) b) as [[j|]|].
         - destruct (file_imm s j); intros [= -> ->]; [left; split; auto; discriminate|right; auto].
         - intros [= -> ->]; left; split; auto; discriminate.
         - intros [= -> ->]; right; auto. }
-      apply mchain_call; rewrite Es; cbn [fst snd]; auto.
+      apply mchain_call; try rewrite Es; cbn [fst snd]; auto.
       * destruct Hs' as [[-> _]|[-> _]]; [apply rstep_refl|].
-        eapply rstep_shapes; eauto. apply (shape_push _ _ _ _ REN H). tp. tp. discriminate.
+        pose proof (shape_push _ _ _ _ REN H) as Hp. rs H Hp.
       * destruct Hs' as [[-> _]|[-> _]]; auto.
         eapply good_shape. apply (shape_push _ _ _ _ REN H).
         repeat split; try tp; try discriminate. intros _. exists perm, im. reflexivity.
@@ -565,7 +572,7 @@ Qed.
 Theorem write_file_chain :
   mchain (write_file' d b data perm sfx f0) s0 Good Rstep final_shape.
 Proof.
-  unfold write_file'. fold t. fold tmp. fold p.
+  unfold write_file'. fold t. fold tmp. fold p. fold f1.
   assert (G0 : Good s0).
   { eapply good_shape. apply shape_init. apply safe_no_ren; auto. }
   (* open the parent directory *)
@@ -573,23 +580,23 @@ Proof.
      match r with None => Shape s' [] false [] ((f0, HDir d) :: fds s0) | Some _ => s' = s0 end).
   { apply mchain_call; auto; rewrite step_opendir; destruct (walk (dirs s0) d); cbn [fst snd]; auto;
       try apply rstep_refl.
-    - eapply rstep_shapes; [apply shape_init|apply shape_bind_fd; apply shape_init| | |]; auto. discriminate.
+    - pose proof shape_init as Hi. pose proof (shape_bind_fd _ _ _ _ _ f0 (HDir d) Hi) as Hb. rs Hi Hb.
     - eapply good_shape. apply shape_bind_fd. apply shape_init. apply safe_no_ren; auto.
     - apply shape_bind_fd. apply shape_init. }
   intros r s1 H1. destruct r as [e|]; [subst s1; apply mchain_ret; cbn; auto|].
   assert (G1 : Good s1) by (eapply good_shape; eauto; apply safe_no_ren; auto).
   eapply mchain_bind with (Q := fun err s' =>
      match err with
-     | None => exists im, Shape s' [LINK; REN] false [mkFile data None perm im] ((f0, HDir d) :: fds s0)
+     | None => (exists im, Shape s' [LINK; REN] false [mkFile data None perm im] ((f0, HDir d) :: fds s0)) /\ too_long b = false
      | Some _ => exists ops fl, Shape s' ops false fl ((f0, HDir d) :: fds s0) /\ Forall tp_op ops /\ has_ren ops = false
      end).
   2:{ intros err s2 H2. destruct err as [e|].
       - destruct H2 as [ops [fl [H2 [Ho Hr]]]]. eapply fac_parent_err; eauto.
-      - destruct H2 as [im H2]. eapply fac_parent_ok; eauto. }
+      - destruct H2 as [[im H2] Hlong]. eapply fac_parent_ok; eauto. }
   (* create the temporary file *)
   eapply mchain_bind with (Q := fun r s' =>
      match r with
-     | None => Shape s' [LINK] false [new_file] ((f1, HFile i) :: (f0, HDir d) :: fds s0)
+     | None => Shape s' [LINK] false [new_file] ((f1, HFile i) :: (f0, HDir d) :: fds s0) /\ too_long t = false
      | Some _ => s' = s1
      end).
   { unfold tmp. pose proof (step_creat s1 d t f1) as E.
@@ -597,19 +604,21 @@ Proof.
     pose proof (shape_creat _ _ f1 H1) as Hc. rewrite (sh_fds _ _ _ _ _ H1) in Hc.
     assert (Hs' : (s' = s1 /\ r <> None) \/
                   (s' = mkFs (dpush (dirs s1) d (OLink t (EFile (length (files s1))))) (files s1 ++ [new_file])
-                             ((f1, HFile (length (files s1))) :: (f0, HDir d) :: fds s0) (cap s1) /\ r = None)).
+                             ((f1, HFile (length (files s1))) :: (f0, HDir d) :: fds s0) (cap s1) /\ r = None /\ too_long t = false)).
     { revert E. rewrite (sh_fds _ _ _ _ _ H1).
       destruct (walk_parent (dirs s1) (d ++ [t])); [intros [= -> ->]; left; split; auto; discriminate|].
       destruct (too_long t); [intros [= -> ->]; left; split; auto; discriminate|].
       destruct (eget (dview (dirs s1) d) t); intros [= -> ->]; [left; split; auto; discriminate|right; auto]. }
-    apply mchain_call; rewrite Es; cbn [fst snd]; auto.
-    - destruct Hs' as [[-> _]|[-> _]]; [apply rstep_refl|].
-      eapply rstep_shapes; eauto; try tp. discriminate.
+    apply mchain_call; try rewrite Es; cbn [fst snd]; auto.
+    - destruct Hs' as [[-> _]|[-> _]]; [apply rstep_refl|]. rs H1 Hc.
     - destruct Hs' as [[-> _]|[-> _]]; auto.
       eapply good_shape; eauto. apply safe_no_ren; auto; tp.
-    - destruct Hs' as [[-> Hr]|[-> ->]]; auto. destruct r; congruence. }
+    - destruct Hs' as [[-> Hr]|[-> [-> Hl]]]; auto. destruct r; congruence. }
   intros r s2 H2. destruct r as [e|].
   { subst s2. apply mchain_ret; auto. exists [], []. auto. }
+  destruct H2 as [H2 Hlong].
+  assert (Hlb : too_long b = false).
+  { destruct (too_long b) eqn:Eb; auto. pose proof (tmp_name_long b sfx Eb) as Hx. fold t in Hx. congruence. }
   assert (G2 : Good s2) by (eapply good_shape; eauto; apply safe_no_ren; auto; tp).
   (* chmod, write, fsync, close *)
   eapply mchain_bind with (Q := fun err s' =>
@@ -624,8 +633,8 @@ Proof.
     cbn [new_file f_dur f_vol f_imm] in H3.
     eapply mchain_bind with (Q := fun r s' => r = None /\
         Shape s' [LINK] false [mkFile [] None perm false] ((f1, HFile i) :: (f0, HDir d) :: fds s0)).
-    { apply mchain_call; rewrite E; cbn [fst snd]; auto.
-      - eapply rstep_shapes; eauto; try tp. discriminate.
+    { apply mchain_call; try rewrite E; cbn [fst snd]; auto.
+      - rs H2 H3.
       - eapply good_shape; eauto. apply safe_no_ren; auto; tp. }
     intros r s3 [-> H3'].
     assert (G3 : Good s3) by (eapply good_shape; eauto; apply safe_no_ren; auto; tp).
@@ -636,8 +645,8 @@ Proof.
     cbn [fcontent f_dur f_vol f_perm f_imm app] in H4.
     eapply mchain_bind with (Q := fun r s' => r = None /\
         Shape s' [LINK] false [mkFile [] (Some data) perm false] ((f1, HFile i) :: (f0, HDir d) :: fds s0)).
-    { apply mchain_call; rewrite E4; cbn [fst snd]; auto.
-      - eapply rstep_shapes; eauto; try tp. discriminate.
+    { apply mchain_call; try rewrite E4; cbn [fst snd]; auto.
+      - rs H3' H4.
       - eapply good_shape; eauto. apply safe_no_ren; auto; tp. }
     intros r s4 [-> H4'].
     eapply mchain_weaken; [apply (fac_file _ _ H4')|].
@@ -665,7 +674,156 @@ Proof.
     + apply mchain_ret.
       * eapply good_shape; eauto.
         repeat split; try tp; try discriminate. intros _. exists perm, im. reflexivity.
-      * exists im. exact H6.
+      * split; auto. exists im. exact H6.
+Qed.
+
+(* durability: once the directory has been synced the new contents survive every crash in which
+   the directory itself is reachable *)
+Lemma shape_crash_synced s ops fl fdl c : Shape s ops true fl fdl -> SafeP ops true fl ->
+  walk (dirs (crash s0 c)) d = WDir -> too_long b = false ->
+  read_path (crash s c) p = Some data.
+Proof.
+  intros H [Hops [Hsy Hc]] Hw Hl. unfold read_path, p. rewrite walk_snoc.
+  assert (Ew : walk (dirs (crash s c)) d = walk (dirs (crash s0 c)) d).
+  { apply walk_ext. intros a Ha. rewrite !crash_dirs. rewrite (sh_other _ _ _ _ _ H); auto.
+    apply sprefix_neq; auto. }
+  rewrite Ew, Hw, Hl. rewrite dview_crash, (sh_dir _ _ _ _ _ H). cbn [d_pend d_dur].
+  rewrite select_nil. cbn [apply_ops fold_left]. rewrite apply_ops_app, (ops_eget _ Hops), (Hsy eq_refl).
+  destruct (Hc (Hsy eq_refl)) as [pm [im ->]].
+  rewrite files_crash, (sh_files _ _ _ _ _ H).
+  rewrite nth_error_app2 by (unfold i; lia). replace (i - length (files s0)) with 0 by (unfold i; lia).
+  reflexivity.
+Qed.
+
+(* the inode a reader gets when it opens p: an old one, or the new one after it was published *)
+Lemma good_walk_file s x : Good s -> walk (dirs s) p = WFile x -> x < i \/ (x = i /\ published s).
+Proof.
+  intros [ops [sy [fl [fdl [H [Hops _]]]]]]. unfold p, published. rewrite walk_snoc.
+  destruct (walk (dirs s) d); try discriminate. destruct (too_long b); try discriminate.
+  rewrite (shape_view _ _ _ _ _ H), (ops_eget _ Hops).
+  destruct (has_ren ops).
+  - intros [= <-]. right. auto.
+  - destruct (eget (dview (dirs s0) d) b) as [[j|]|] eqn:Eg; try discriminate.
+    intros [= <-]. left. apply (wf_view_bound _ _ Eg).
 Qed.
 
 End WriteFile.
+
+(* ---------------------------------------------------------------------------------------- *)
+(* the theorems, for every state, path, contents, oracle, prefix of the trace and crash choice *)
+(* ---------------------------------------------------------------------------------------- *)
+
+Lemma read_path_nil s : read_path s [] = None.
+Proof. reflexivity. Qed.
+
+Lemma write_file_good s0 p data perm sfx f0 : wf s0 -> p <> [] ->
+  chain (trace_of (write_file p data perm sfx f0 s0)) s0
+        (Good s0 (parent p) (base p) data sfx) (Rstep s0 (parent p) (base p)).
+Proof.
+  intros Hwf Hp. rewrite (path_snoc p Hp) at 1. rewrite write_file_snoc.
+  apply (write_file_chain s0 (parent p) (base p) data perm sfx f0 Hwf).
+Qed.
+
+(* ATOMIC: at every prefix of the system-call trace of WriteFile and for every crash choice, the
+   target path holds the complete new contents or exactly what it would hold if the machine
+   had crashed (same choice) before the call started; never partial contents *)
+Theorem write_atomic : forall s0 p data perm sfx f0 k c, wf s0 ->
+  let T := trace_of (write_file p data perm sfx f0 s0) in
+  read_path (crash (exec (firstn k T) s0) c) p = Some data \/
+  read_path (crash (exec (firstn k T) s0) c) p = read_path (crash s0 c) p.
+Proof.
+  intros s0 p data perm sfx f0 k c Hwf T.
+  destruct (path_eq_dec p []) as [->|Hp].
+  - right. reflexivity.
+  - pose proof (write_file_good s0 p data perm sfx f0 Hwf Hp) as Hc.
+    pose proof (chain_prefix _ _ _ _ k Hc) as Hg. fold T in Hg.
+    pose proof (good_crash s0 (parent p) (base p) data sfx Hwf _ Hg c) as R.
+    rewrite <- (path_snoc p Hp) in R. exact R.
+Qed.
+
+(* READERS: at every prefix, a reader that resolves the path sees the complete new contents or
+   the old contents *)
+Theorem readers_see_whole : forall s0 p data perm sfx f0 k, wf s0 ->
+  let T := trace_of (write_file p data perm sfx f0 s0) in
+  read_path (exec (firstn k T) s0) p = Some data \/
+  read_path (exec (firstn k T) s0) p = read_path s0 p.
+Proof.
+  intros s0 p data perm sfx f0 k Hwf T.
+  destruct (path_eq_dec p []) as [->|Hp].
+  - right. reflexivity.
+  - pose proof (write_file_good s0 p data perm sfx f0 Hwf Hp) as Hc.
+    pose proof (chain_prefix _ _ _ _ k Hc) as Hg. fold T in Hg.
+    pose proof (good_read s0 (parent p) (base p) data sfx Hwf _ Hg) as R.
+    rewrite <- (path_snoc p Hp) in R. exact R.
+Qed.
+
+(* READERS holding a descriptor: the inode obtained by opening the path after j calls of the
+   writer is not modified by any later call of the writer (so every chunk of a reader's read
+   loop comes from one complete object, for every interleaving with this writer) *)
+Theorem readers_fd_stable : forall s0 p data perm sfx f0 j k x, wf s0 -> j <= k ->
+  let T := trace_of (write_file p data perm sfx f0 s0) in
+  walk (dirs (exec (firstn j T) s0)) p = WFile x ->
+  nth_error (files (exec (firstn k T) s0)) x = nth_error (files (exec (firstn j T) s0)) x.
+Proof.
+  intros s0 p data perm sfx f0 j k x Hwf Hjk T Hw.
+  destruct (path_eq_dec p []) as [->|Hp]; [discriminate|].
+  pose proof (write_file_good s0 p data perm sfx f0 Hwf Hp) as Hc. fold T in Hc.
+  pose proof (chain_prefix _ _ _ _ j Hc) as Hg.
+  pose proof (chain_between _ _ _ _ j k (rstep_refl s0 (parent p) (base p))
+                (rstep_trans s0 (parent p) (base p)) Hc Hjk) as [R1 R2].
+  rewrite (path_snoc p Hp) in Hw.
+  destruct (good_walk_file s0 (parent p) (base p) data sfx Hwf _ x Hg Hw) as [Hx|[-> Hpub]].
+  - apply R1. exact Hx.
+  - apply R2. exact Hpub.
+Qed.
+
+(* DURABLE: when WriteFile returned nil, then for every crash choice under which the directory
+   was durably reachable before the call, the path holds the new contents *)
+Theorem write_durable : forall s0 p data perm sfx f0 c, wf s0 ->
+  result_of (write_file p data perm sfx f0 s0) = None ->
+  walk (dirs (crash s0 c)) (parent p) = WDir ->
+  read_path (crash (state_of (write_file p data perm sfx f0 s0)) c) p = Some data.
+Proof.
+  intros s0 p data perm sfx f0 c Hwf Hr Hw.
+  destruct (path_eq_dec p []) as [->|Hp].
+  - exfalso. revert Hr. unfold write_file, bind, call, result_of. cbn [parent removelast].
+    rewrite step_opendir, walk_nil. cbn. discriminate.
+  - pose proof (write_file_chain s0 (parent p) (base p) data perm sfx f0 Hwf) as [_ [_ Hf]].
+    rewrite <- write_file_snoc, <- (path_snoc p Hp) in Hf. rewrite Hr in Hf.
+    destruct Hf as [[im Hs] Hl].
+    rewrite (path_snoc p Hp) at 2.
+    eapply shape_crash_synced; eauto.
+    repeat split; auto.
+    + repeat constructor.
+    + intros _. exists perm, im. reflexivity.
+Qed.
+
+(* frame: WriteFile changes no directory other than the parent of p, and only appends to the
+   inode table *)
+Lemma write_file_frame s0 p data perm sfx f0 : wf s0 -> p <> [] ->
+  let s' := state_of (write_file p data perm sfx f0 s0) in
+  (forall q, q <> parent p -> dirs s' q = dirs s0 q) /\
+  (exists fl, files s' = files s0 ++ fl) /\ cap s' = cap s0.
+Proof.
+  intros Hwf Hp s'.
+  pose proof (write_file_good s0 p data perm sfx f0 Hwf Hp) as Hc.
+  pose proof (chain_prefix _ _ _ _ (length (trace_of (write_file p data perm sfx f0 s0))) Hc) as Hg.
+  rewrite firstn_all in Hg.
+  assert (Es : exec (trace_of (write_file p data perm sfx f0 s0)) s0 = s').
+  { pose proof (write_file_chain s0 (parent p) (base p) data perm sfx f0 Hwf) as [_ [E _]].
+    rewrite <- write_file_snoc, <- (path_snoc p Hp) in E. symmetry. exact E. }
+  rewrite Es in Hg. destruct Hg as [ops [sy [fl [fdl [H _]]]]].
+  split; [apply (sh_other _ _ _ _ _ _ _ H)|]. split; [exists fl; apply (sh_files _ _ _ _ _ _ _ H)|].
+  apply (sh_cap _ _ _ _ _ _ _ H).
+Qed.
+
+(* non-vacuity: a successful overwrite in a directory with an older file *)
+Example write_file_example :
+  let s0 := exec [SMkdir [s2b "d"]; SOpenDir [] 0; SFsync 0; SClose 0] (init_fs false) in
+  let r1 := write_file [s2b "d"; s2b "k"] (s2b "old") 420 (s2b "1") 0 s0 in
+  let r2 := write_file [s2b "d"; s2b "k"] (s2b "new") 420 (s2b "2") 0 (state_of r1) in
+  result_of r1 = None /\ result_of r2 = None /\
+  read_path (state_of r1) [s2b "d"; s2b "k"] = Some (s2b "old") /\
+  read_path (crash (state_of r2) (choice_of [] [])) [s2b "d"; s2b "k"] = Some (s2b "new") /\
+  length (trace_of r2) = 10.
+Proof. vm_compute. repeat split; reflexivity. Qed.
